@@ -17,6 +17,8 @@ pub trait OF: Copy + PartialEq {
     fn sub(self, o: Self) -> Self;
     fn mul(self, o: Self) -> Self;
     fn any() -> Self;
+    /// coordinates whose bit in `mask` (consumed LSB first, in coordinate order) is set are symbolic, the others are zero
+    fn any_masked(mask: &mut u32) -> Self;
     fn is_zero(self) -> bool {
         self == Self::zero()
     }
@@ -55,6 +57,11 @@ impl<const Q: u32> OF for OP<Q> {
         let v = v & 0xf;
         assume(v < Q);
         OP(v)
+    }
+    fn any_masked(mask: &mut u32) -> Self {
+        let sym = *mask & 1 == 1;
+        *mask >>= 1;
+        if sym { Self::any() } else { OP(0) }
     }
 }
 pub trait NR<B>: Copy + PartialEq {
@@ -101,6 +108,15 @@ impl<B: OF, N: NR<B>, const K: usize> OF for OE<B, N, K> {
     fn any() -> Self {
         OE(core::array::from_fn(|_| B::any()), PhantomData)
     }
+    fn any_masked(mask: &mut u32) -> Self {
+        let mut c = [B::zero(); K];
+        let mut i = 0;
+        while i < K {
+            c[i] = B::any_masked(mask);
+            i += 1;
+        }
+        OE(c, PhantomData)
+    }
 }
 macro_rules! nr {
     ($name:ident, $b:ty, $v:expr) => {
@@ -115,6 +131,11 @@ macro_rules! nr {
 }
 pub type P7 = OP<7>;
 pub type P13 = OP<13>;
+pub type P5 = OP<5>;
+nr!(N5q, P5, OP(2));
+pub type O5_2 = OE<P5, N5q, 2>;
+nr!(N5u, O5_2, OE([OP(0), OP(1)], PhantomData));
+pub type O5_4 = OE<O5_2, N5u, 2>;
 nr!(N7m1, P7, OP(6));
 nr!(N7c, P7, OP(2));
 nr!(N13q, P13, OP(2));
@@ -124,6 +145,10 @@ pub type O7_6 = OE<O7_2, N7xi, 3>;
 nr!(N7v, O7_6, OE([O7_2::zero(), O7_2::one(), O7_2::zero()], PhantomData));
 pub type O7_12 = OE<O7_6, N7v, 2>;
 pub type O7_3 = OE<P7, N7c, 3>;
+nr!(N7c3, P7, OP(3));
+pub type O7_3b = OE<P7, N7c3, 3>;
+nr!(N7u3, O7_3b, OE([OP(0), OP(1), OP(0)], PhantomData));
+pub type O7_6b = OE<O7_3b, N7u3, 2>;
 pub type O13_2 = OE<P13, N13q, 2>;
 nr!(N13u, O13_2, OE([OP(0), OP(1)], PhantomData));
 pub type O13_4 = OE<O13_2, N13u, 2>;
@@ -141,6 +166,14 @@ impl Conv<P7> for PF7 {
         PF7::enc(o.0)
     }
     fn to_o(&self) -> P7 {
+        OP(self.val())
+    }
+}
+impl Conv<P5> for PF5 {
+    fn from_o(o: &P5) -> Self {
+        PF5::enc(o.0)
+    }
+    fn to_o(&self) -> P5 {
         OP(self.val())
     }
 }
@@ -193,6 +226,10 @@ conv_quad!(F13_4, O13_4, F13_2);
 conv_cubic!(F13_3, O13_3, PF13);
 conv_quad!(F13_6, O13_6, F13_3);
 conv_quad!(M13_2, O13_2, crate::fields::DF13);
+conv_quad!(F5_2, O5_2, PF5);
+conv_quad!(F5_4, O5_4, F5_2);
+conv_cubic!(F7_3b, O7_3b, PF7);
+conv_quad!(F7_6b, O7_6b, F7_3b);
 
 // ---- generic checks -------------------------------------------------------------------------------------------------
 fn mul_square<A: Conv<O>, O: OF>() {
@@ -209,6 +246,27 @@ fn mul_square<A: Conv<O>, O: OF>() {
     crate::cover!(!x.is_zero() && !y.is_zero() && x.mul(y) == O::one());
     let ok = prod.to_o() == x.mul(y) && p2 == prod && sq.to_o() == x.mul(x) && s2 == sq && sum.to_o() == x.add(y) && dif.to_o() == x.sub(y)
         && a.is_zero() == x.is_zero() && a.is_one() == (x == O::one()) && (-a).to_o() == O::zero().sub(x) && a.double().to_o() == x.add(x);
+    assert!(ok);
+}
+/// mul with a window on the operands: coordinates selected by the masks are symbolic (ALL values), the others zero
+fn mul_window<A: Conv<O>, O: OF>(mut xmask: u32, mut ymask: u32) {
+    let (x, y) = (O::any_masked(&mut xmask), O::any_masked(&mut ymask));
+    let (a, b) = (A::from_o(&x), A::from_o(&y));
+    let prod = a * b;
+    let mut p2 = b;
+    p2 *= &a;
+    crate::cover!(!x.is_zero() && !y.is_zero());
+    let ok = prod.to_o() == x.mul(y) && p2 == prod;
+    assert!(ok);
+}
+fn square_window<A: Conv<O>, O: OF>(mut xmask: u32) {
+    let x = O::any_masked(&mut xmask);
+    let a = A::from_o(&x);
+    let sq = a.square();
+    let mut s2 = a;
+    s2.square_in_place();
+    crate::cover!(!x.is_zero() && x != O::one());
+    let ok = sq.to_o() == x.mul(x) && s2 == sq && (-a).to_o() == O::zero().sub(x) && a.double().to_o() == x.add(x) && a.is_zero() == x.is_zero();
     assert!(ok);
 }
 fn inverse<A: Conv<O>, O: OF>() {
@@ -248,37 +306,49 @@ crate::harnesses! { REG;
     /// quick required | Fp2 = F_13[u]/(u^2-2) (general non-residue): mul, square, linear ops for ALL pairs
     #[unwind(10)]
     fn c02_fp2_f13_mul() { mul_square::<F13_2, O13_2>() }
-    /// quick required | Fp2 over the REAL Montgomery base field F_13 (derive): mul, square for ALL pairs
+    /// thorough required timeout=3000 | Fp2 over the REAL Montgomery base field F_13 (derive): mul, square for ALL pairs
     #[unwind(10)]
     fn c02_fp2_mont13_mul() { mul_square::<M13_2, O13_2>() }
     /// quick required | Fp3 = F_7[u]/(u^3-2): mul (Karatsuba), square (Chung-Hasan), linear ops for ALL pairs
     #[unwind(10)]
     fn c02_fp3_f7_mul() { mul_square::<F7_3, O7_3>() }
-    /// quick required | Fp3 = F_13[u]/(u^3-2): mul, square for ALL pairs
+    /// thorough required timeout=3000 | Fp3 = F_13[u]/(u^3-2): mul, square for ALL pairs
     #[unwind(10)]
     fn c02_fp3_f13_mul() { mul_square::<F13_3, O13_3>() }
-    /// quick required | Fp4 = Fp2[v]/(v^2-u) over F_13: mul, square for ALL pairs
+    /// quick required | Fp4 = Fp2[v]/(v^2-u) over F_5: mul, square, linear ops for ALL pairs (5^8 pairs of elements)
     #[unwind(10)]
-    fn c02_fp4_f13_mul() { mul_square::<F13_4, O13_4>() }
-    /// quick required | Fp6_3over2 = Fp2[v]/(v^3-xi) over F_7: mul, square for ALL pairs
+    fn c02_fp4_f5_mul() { mul_square::<F5_4, O5_4>() }
+    /// thorough required timeout=3000 | Fp4 over F_13: mul with x ranging over ALL elements and y over ALL elements with c1 = 0 / c0 = 0 (two windows); square for ALL x
     #[unwind(10)]
-    fn c02_fp6_3over2_mul() { mul_square::<F7_6, O7_6>() }
-    /// quick required | Fp6_2over3 = Fp3[w]/(w^2-u) over F_13: mul, square for ALL pairs
+    fn c02_fp4_f13_mul() { mul_window::<F13_4, O13_4>(0xf, 0x3); mul_window::<F13_4, O13_4>(0xf, 0xc); square_window::<F13_4, O13_4>(0xf) }
+    /// quick required | Fp6_3over2 over F_7: square (Chung-Hasan), neg, double for ALL elements (7^6)
     #[unwind(10)]
-    fn c02_fp6_2over3_mul() { mul_square::<F13_6, O13_6>() }
-    /// thorough required timeout=3000 mem=30 | Fp12_2over3over2 over F_7: mul, square for ALL pairs (24 symbolic coordinates)
+    fn c02_fp6_3over2_square() { square_window::<F7_6, O7_6>(0x3f) }
+    /// quick required | Fp6_3over2 over F_7: mul (Karatsuba) with x over ALL elements and y over all elements of the form (y0, 0, 0) — window: 2 of 6 coordinates of y symbolic
     #[unwind(10)]
-    fn c02_fp12_mul() { mul_square::<F7_12, O7_12>() }
+    fn c02_fp6_3over2_mul_w0() { mul_window::<F7_6, O7_6>(0x3f, 0x03) }
+    /// thorough required timeout=3000 | Fp6_3over2 over F_7: mul with y = (0, y1, 0) and y = (0, 0, y2), x over ALL elements
+    #[unwind(10)]
+    fn c02_fp6_3over2_mul_w12() { mul_window::<F7_6, O7_6>(0x3f, 0x0c); mul_window::<F7_6, O7_6>(0x3f, 0x30) }
+    /// quick required | Fp6_2over3 over F_7: square for ALL elements (7^6); mul with x over ALL elements and y = (y0.c0, y0.c1, 0 | 0) window
+    #[unwind(10)]
+    fn c02_fp6_2over3_square_mul() { square_window::<F7_6b, O7_6b>(0x3f); mul_window::<F7_6b, O7_6b>(0x3f, 0x03) }
+    /// thorough required timeout=3000 | Fp6_2over3 over F_7: mul with the remaining two-coordinate windows of y
+    #[unwind(10)]
+    fn c02_fp6_2over3_mul_more() { mul_window::<F7_6b, O7_6b>(0x3f, 0x0c); mul_window::<F7_6b, O7_6b>(0x3f, 0x30) }
+    /// thorough attempt timeout=3000 mem=30 | Fp12 over F_7: mul and square on windows (x: the six coordinates of c0 symbolic, y: two coordinates symbolic)
+    #[unwind(10)]
+    fn c02_fp12_mul() { mul_window::<F7_12, O7_12>(0x03f, 0x003); mul_window::<F7_12, O7_12>(0xfc0, 0x0c0); square_window::<F7_12, O7_12>(0x3f) }
 
     /// quick required | inverse in Fp2/F_7, Fp2/F_13, Fp3/F_7: ALL x: None iff x = 0, else x * inv = 1
     #[unwind(10)]
     fn c02_inverse_small() { inverse::<F7_2, O7_2>(); inverse::<F13_2, O13_2>(); inverse::<F7_3, O7_3>() }
-    /// quick required | inverse in Fp4/F_13 and Fp6_3over2/F_7: ALL x
+    /// quick required | inverse in Fp4/F_5 and Fp6_3over2/F_7: ALL x
     #[unwind(10)]
-    fn c02_inverse_fp4_fp6() { inverse::<F13_4, O13_4>(); inverse::<F7_6, O7_6>() }
-    /// thorough required timeout=3000 | inverse in Fp6_2over3/F_13 and Fp3/F_13: ALL x
+    fn c02_inverse_fp4_fp6() { inverse::<F5_4, O5_4>(); inverse::<F7_6, O7_6>() }
+    /// thorough required timeout=3000 | inverse in Fp6_2over3/F_7, Fp4/F_13 and Fp3/F_13: ALL x
     #[unwind(10)]
-    fn c02_inverse_more() { inverse::<F13_6, O13_6>(); inverse::<F13_3, O13_3>() }
+    fn c02_inverse_more() { inverse::<F7_6b, O7_6b>(); inverse::<F13_4, O13_4>(); inverse::<F13_3, O13_3>() }
     /// thorough attempt timeout=3000 mem=30 | inverse in Fp12/F_7: ALL x
     #[unwind(10)]
     fn c02_inverse_fp12() { inverse::<F7_12, O7_12>() }
@@ -289,15 +359,15 @@ crate::harnesses! { REG;
     /// quick required | Frobenius in Fp3/F_7: x^p and iterates k = 0..=4, ALL x
     #[unwind(10)]
     fn c02_frobenius_fp3() { frobenius::<F7_3, O7_3, 3>(7) }
-    /// quick required | Frobenius in Fp4/F_13: x^p and iterates k = 0..=5, ALL x
+    /// quick required | Frobenius in Fp4/F_5: x^p and iterates k = 0..=5, ALL x
     #[unwind(10)]
-    fn c02_frobenius_fp4() { frobenius::<F13_4, O13_4, 4>(13) }
-    /// quick required | Frobenius in Fp6_3over2/F_7: x^p and iterates k = 0..=7, ALL x
+    fn c02_frobenius_fp4() { frobenius::<F5_4, O5_4, 4>(5) }
+    /// thorough required timeout=3000 | Frobenius in Fp6_3over2/F_7: x^p and iterates k = 0..=7, ALL x
     #[unwind(10)]
     fn c02_frobenius_fp6_3over2() { frobenius::<F7_6, O7_6, 6>(7) }
-    /// quick required | Frobenius in Fp6_2over3/F_13: x^p and iterates k = 0..=7, ALL x
+    /// thorough required timeout=3000 | Frobenius in Fp6_2over3/F_7: x^p and iterates k = 0..=7, ALL x
     #[unwind(10)]
-    fn c02_frobenius_fp6_2over3() { frobenius::<F13_6, O13_6, 6>(13) }
+    fn c02_frobenius_fp6_2over3() { frobenius::<F7_6b, O7_6b, 6>(7) }
     /// thorough required timeout=3000 mem=30 | Frobenius in Fp12/F_7: x^p and iterates k = 0..=13, ALL x
     #[unwind(16)]
     fn c02_frobenius_fp12() { frobenius::<F7_12, O7_12, 12>(7) }
@@ -326,25 +396,38 @@ crate::harnesses! { REG;
             && a2.to_o() == x.mul(es7) && b2.to_o() == y.mul(es13) && b3 == b2 && c2.to_o() == z.mul(es73);
         assert!(ok);
     }
-    /// quick required | sparse multiplications of Fp6_3over2/F_7 (mul_by_1, mul_by_01, mul_by_fp2, mul_by_fp) equal full multiplication by the embedded sparse element, ALL operands
+    /// quick required | sparse multiplications of Fp6_3over2/F_7: mul_by_1(c1), mul_by_fp2(c0), mul_by_fp(s) equal full multiplication by the embedded sparse element: x over ALL elements, the sparse operand over ALL Fp2 / Fp values
     #[unwind(10)]
     fn c02_sparse_fp6_3over2() {
         let x = O7_6::any();
-        let (c0, c1) = (O7_2::any(), O7_2::any());
+        let c = O7_2::any();
         let s = P7::any();
+        let which: u8 = any();
+        assume(which < 3);
         let a = F7_6::from_o(&x);
         let z2 = O7_2::zero();
-        let mut m1 = a;
-        m1.mul_by_1(&F7_2::from_o(&c1));
-        let mut m01 = a;
-        m01.mul_by_01(&F7_2::from_o(&c0), &F7_2::from_o(&c1));
-        let mut mf2 = a;
-        mf2.mul_by_fp2(&F7_2::from_o(&c0));
-        let mut mf = a;
-        mf.mul_by_fp(&PF7::from_o(&s));
+        let mut m = a;
+        let want = match which {
+            0 => { m.mul_by_1(&F7_2::from_o(&c)); x.mul(OE([z2, c, z2], PhantomData)) },
+            1 => { m.mul_by_fp2(&F7_2::from_o(&c)); x.mul(OE([c, z2, z2], PhantomData)) },
+            _ => { m.mul_by_fp(&PF7::from_o(&s)); x.mul(OE([OE([s, OP(0)], PhantomData), z2, z2], PhantomData)) },
+        };
+        crate::cover!(!x.is_zero() && !c.is_zero() && which == 0);
+        let ok = m.to_o() == want;
+        assert!(ok);
+    }
+    /// thorough required timeout=3000 | Fp6_3over2/F_7 mul_by_01(c0, c1): x over ALL elements, c0 over ALL of Fp2, c1 with one symbolic coordinate (two windows)
+    #[unwind(10)]
+    fn c02_sparse_fp6_01() {
+        let x = O7_6::any();
+        let c0 = O7_2::any();
+        let mut mask: u32 = if any::<bool>() { 1 } else { 2 };
+        let c1 = O7_2::any_masked(&mut mask);
+        let a = F7_6::from_o(&x);
+        let mut m = a;
+        m.mul_by_01(&F7_2::from_o(&c0), &F7_2::from_o(&c1));
         crate::cover!(!x.is_zero() && !c0.is_zero() && !c1.is_zero());
-        let ok = m1.to_o() == x.mul(OE([z2, c1, z2], PhantomData)) && m01.to_o() == x.mul(OE([c0, c1, z2], PhantomData))
-            && mf2.to_o() == x.mul(OE([c0, z2, z2], PhantomData)) && mf.to_o() == x.mul(OE([OE([s, OP(0)], PhantomData), z2, z2], PhantomData));
+        let ok = m.to_o() == x.mul(OE([c0, c1, O7_2::zero()], PhantomData));
         assert!(ok);
     }
     /// quick required | sparse multiplications of Fp6_2over3/F_13 (mul_by_034, mul_by_014) and Fp4 (mul_by_fp, mul_by_fp2) equal full multiplication by the embedded element, ALL operands
